@@ -35,6 +35,8 @@ SIGNAN = "GMRF.logpdf|order2-neumann:logd-NaN"
 SIGIGP = "InverseGamma._gradient|nonpositive-shape-or-scale:finite-gradient-where-logd-NaN"
 SIGSLP = "SmoothedLaplace.gradient|nonpositive-scale:finite-gradient-where-logd-NaN"
 SIGBATCH = "Gaussian._gradient|row-batch:transpose-dropped"
+SIGGMP = "GMRF._gradient|nonpositive-prec:finite-gradient-where-logd-NaN"
+SIGCMP = "CMRF._gradient|nonpositive-scale:finite-gradient-where-logd-NaN"
 
 
 # ------------------------------------------------------------------------------------------------
@@ -402,6 +404,18 @@ def _w_invalid_par(which):
     return ("%s: logd = %r but gradient() returns the finite vector %r" % (what, v, o[1])) if fails else None, "%s: logd %r, gradient -> %s" % (what, v, o[0])
 
 
+def _w_invalid_mrf(which):
+    from cuqi.distribution import GMRF, CMRF
+    x = np.array([0.5, 1.5, -0.25])
+    D = GMRF(np.array([1., 2., 3.]), -2.0) if which == "gmrf" else CMRF(np.array([1., 2., 3.]), -1.0)
+    o = observe(lambda: D.gradient(x))
+    v = logd_of(D)(x)
+    fails = o[0] == "vec" and not math.isfinite(v)
+    what = "GMRF([1,2,3], prec=-2)" if which == "gmrf" else "CMRF([1,2,3], scale=-1)"
+    return ("%s: logd = %r but gradient([0.5,1.5,-0.25]) returns the finite vector %r" % (what, v, np.round(o[1], 6).tolist())) if fails else None, \
+        "%s: logd %r, gradient -> %s" % (what, v, o[0])
+
+
 def _w_batch():
     from cuqi.distribution import Gaussian
     G = Gaussian(np.zeros(2), np.array([[2, .25], [.25, .5]]))
@@ -415,7 +429,7 @@ def _w_batch():
         "Gaussian(zeros(2), S).gradient(rows): N=1 -> %s, N=2 -> %s" % (o1[0], o2[0])
 
 
-WITNESS = {SIGBATCH: _w_batch, SIGIGP: lambda: _w_invalid_par("ig"), SIGSLP: lambda: _w_invalid_par("sl"), SIGNAN: _w_gmrf_nan, SIG7: _w_cmrf, SIG8G: lambda: _w_none("gmrf"), SIG8A: lambda: _w_none("gauss"), SIG8L: lambda: _w_none("lognormal"),
+WITNESS = {SIGGMP: lambda: _w_invalid_mrf("gmrf"), SIGCMP: lambda: _w_invalid_mrf("cmrf"), SIGBATCH: _w_batch, SIGIGP: lambda: _w_invalid_par("ig"), SIGSLP: lambda: _w_invalid_par("sl"), SIGNAN: _w_gmrf_nan, SIG7: _w_cmrf, SIG8G: lambda: _w_none("gmrf"), SIG8A: lambda: _w_none("gauss"), SIG8L: lambda: _w_none("lognormal"),
            SIG8C: lambda: _w_none("cmrf"), SIG29: _w_prec_vector, SIG30: _w_mhn}
 
 _STATE = {}
@@ -1086,6 +1100,7 @@ def run(ctx):
     cases += gen_shallow(ctx, st)
     cases += gen_intparams(ctx, st)
     cases += gen_zeros(ctx, st)
+    cases += gen_oos_mrf(ctx, st)
     cases += gen_lik_tgeo(ctx, st)          # new families go last: the random streams of the older generators stay as they were
     return Result(cases=cases, rule=RULE,
                   extra={"repair_state": {s: ("repaired" if v else "defect present") for s, v in st.items()}},
@@ -1374,6 +1389,58 @@ def gen_lik(ctx, st):
     ms = rand_model(rng, "nograd", ("default",))
     out.append(case_lik(lik_meta(rng, ms, "cov", "scalar"), st, expect_refusal=True))
     return out
+
+
+def gen_oos_mrf(ctx, st):
+    """GMRF with a non-positive precision / CMRF with a non-positive scale: not a distribution (logd is NaN or -inf at every
+    point); the gradient must not be a finite vector (the clause the separable families already honour for their parameters)"""
+    rng = ctx.rng
+    out = []
+    for fam in ("gmrf", "cmrf"):
+        for bc in ("zero", "periodic", "neumann"):
+            for kind in ("negative", "zero"):
+                n = rng.randint(4, 5)
+                val = Fraction(0) if kind == "zero" else -rpos(rng)
+                meta = {"fam": "oosmrf", "mrf": fam, "bc": bc, "order": rng.choice([1, 2]) if fam == "gmrf" else 1, "n": n, "par": P_(val),
+                        "mean": pv(rvec(rng, n, -2, 2, nonzero=True)), "x": pv(rvec(rng, n, -2, 2)),
+                        "cellname": "oos/%s/%s-%s/%s" % (fam.upper(), "prec" if fam == "gmrf" else "scale", kind, bc)}
+                out.append(case_oos_mrf(meta, st))
+    # the same test must let a POSITIVE parameter through (the value cells cover the numbers)
+    for fam in ("gmrf", "cmrf"):
+        n = rng.randint(4, 5)
+        meta = {"fam": "oosmrf", "mrf": fam, "bc": "zero", "order": 1, "n": n, "par": P_(rpos(rng)), "mean": pv(rvec(rng, n, -2, 2, nonzero=True)),
+                "x": pv(rvec(rng, n, -2, 2)), "cellname": "oos/%s/%s-positive/zero" % (fam.upper(), "prec" if fam == "gmrf" else "scale")}
+        out.append(case_oos_mrf(meta, st))
+    return out
+
+
+def case_oos_mrf(meta, st):
+    from cuqi.distribution import GMRF, CMRF
+    import io, contextlib
+    n, val = meta["n"], float(F(meta["par"]))
+    with contextlib.redirect_stdout(io.StringIO()), warnings.catch_warnings():
+        warnings.simplefilter("ignore")
+        with np.errstate(all="ignore"):
+            if meta["mrf"] == "gmrf":
+                D = GMRF(fa(meta["mean"]), val, bc_type=meta["bc"], order=meta["order"], geometry=n)
+            else:
+                D = CMRF(fa(meta["mean"]), val, bc_type=meta["bc"], geometry=n)
+    x = fa(meta["x"])
+    o = observe(lambda: D.gradient(x))
+    v = logd_of(D)(x)
+    sig0 = SIGGMP if meta["mrf"] == "gmrf" else SIGCMP
+    d, sig = None, ""
+    if val > 0:
+        if o[0] != "vec" or not math.isfinite(v):
+            d, sig = "%s with the positive parameter %r: logd = %r, gradient -> %s" % (meta["mrf"].upper(), val, v, o[0]), "C03|%s|%s" % (meta["cellname"], o[0])
+    elif o[0] == "vec" and not math.isfinite(v):
+        d = "%s(%s = %r, bc %s): logd = %r at every point but gradient(%s) returns the finite vector %s" % (
+            meta["mrf"].upper(), "prec" if meta["mrf"] == "gmrf" else "scale", val, meta["bc"], v, x.tolist(), np.round(o[1], 6).tolist())
+        sig = sig0
+    elif o[0] == "vec":
+        d, sig = "logd = %r is finite for a non-positive parameter" % v, "C03|%s|logd-finite" % meta["cellname"]
+    expr = "check_mrf_param %s %s %s" % (cbool(st[sig0]), cq(F(meta["par"])), cobs(o))
+    return Case(expr=expr, meta=meta, cell=meta["cellname"], kind="DECISION", impl_fail=d, signature=sig)
 
 
 TAC_TGEO = ("cbv [tlik_grad tlik_logk tfwd tjact rvmulM tphi tphi' map length rl_close r_close rdot rvadd rvsub rvscale rmatvec rmattvec "
@@ -2528,6 +2595,11 @@ def gen_intparams(ctx, st):
                 sm["pars"] = [["v", pv(lo)], ["v", pv([l + rng.randint(1, 4) for l in lo])], ["s", P_(0)]]
             sm["x"], sm["x1"] = pv(sep_point(rng, sm)), pv(sep_point(rng, sm))
             sm["intdecl"] = ["int64", "list"][r % 2]
+            if sf == "Uniform":
+                # Uniform keeps its parameters as they are given: with Python LISTS logpdf raises TypeError (`self.high - self.low`
+                # on two lists) while gradient() answers -- there is no log-density to differentiate, so the list style is not a
+                # C03 case (observation reported to the lead; thorough tier only)
+                sm["intdecl"] = "int64"
             sm["cellname"] = "intparams/sep/%s" % sf
             out += case_sep(sm, st)
         m = rng.randint(3, 4)
@@ -2916,6 +2988,8 @@ def _rerun(meta):
         return [case_gauss_prior(meta, st)]
     if fam == "gmrf":
         return [case_gmrf(meta, st)]
+    if fam == "oosmrf":
+        return [case_oos_mrf(meta, st)]
     if fam == "lik" and meta["model"]["dom"][0] == "tmap+grad":
         return case_lik_tgeo(meta, st)
     if fam == "lik":
